@@ -72,6 +72,14 @@ type Case struct {
 	// carries plain HTTP) travels alone; the rest follows this many milliseconds
 	// later (a fragmenting sender, a trickling link).
 	SplitFirstMs int `json:"split_first_ms,omitempty"`
+	// Before: tunnels this connection carried earlier. Each element is a CONNECT
+	// (to a relay) whose traffic is not TLS, with that many plain requests in it;
+	// the next CONNECT - of the following element, or the case's own - is sent in
+	// the clear inside it (a client chaining through a second proxy, a connection
+	// first used for plain HTTP).
+	Before []int `json:"before,omitempty"`
+	// OriginDelayMs: the origin takes this long over every response.
+	OriginDelayMs int `json:"origin_delay_ms,omitempty"`
 }
 
 // splitConn sends the first byte of its first Write on its own.
@@ -201,7 +209,7 @@ func runOnce(c Case, T time.Duration) (v kit.Verdict) {
 			if r.Header.Get("X-Verif-Close-Delimited") == "1" {
 				return netkit.Script{Raw: []byte("HTTP/1.1 200 OK\r\nContent-Type: text/plain\r\n\r\n" + body), CutAt: -1, After: "close"}
 			}
-			return netkit.Script{Raw: []byte(fmt.Sprintf("HTTP/1.1 200 OK\r\nContent-Length: %d\r\n\r\n%s", len(body), body)), CutAt: -1}
+			return netkit.Script{Raw: []byte(fmt.Sprintf("HTTP/1.1 200 OK\r\nContent-Length: %d\r\n\r\n%s", len(body), body)), CutAt: -1, Delay: time.Duration(c.OriginDelayMs) * time.Millisecond}
 		}
 	}
 	tlsOrigin := netkit.NewTLSOrigin(netkit.ServerTLS("secure.test", "other.test", "rewritten.test"), mk(true))
@@ -328,6 +336,7 @@ func runOnce(c Case, T time.Duration) (v kit.Verdict) {
 		return true
 	}
 	var connectSess bool
+	var preIDs []string
 	if c.Listener == "transparent" || c.Listener == "shaped-transparent" {
 		if !upgrade() {
 			return v
@@ -344,6 +353,37 @@ func runOnce(c Case, T time.Duration) (v kit.Verdict) {
 			oc.SetDeadline(time.Time{})
 			conn = oc
 			br = bufio.NewReader(oc)
+		}
+		for si, k := range c.Before {
+			conn.SetWriteDeadline(time.Now().Add(5 * time.Second))
+			fmt.Fprintf(conn, "CONNECT relay.test:3128 HTTP/1.1\r\nHost: relay.test:3128\r\nX-Verif-Id: pconnect%d\r\n\r\n", si)
+			conn.SetReadDeadline(time.Now().Add(T))
+			res, err := http.ReadResponse(br, &http.Request{Method: "CONNECT"})
+			if err != nil || res.StatusCode != 200 {
+				class := "no-200"
+				if netkit.IsTimeout(err) {
+					class = "timeout-connect"
+				}
+				return kit.Failf("C05/"+m+"/earlier-plain-tunnel/"+class, "CONNECT of the earlier tunnel %d: %v %v", si, res, err)
+			}
+			for j := 0; j < k; j++ {
+				id := fmt.Sprintf("p%d-%d", si, j)
+				preIDs = append(preIDs, id)
+				fmt.Fprintf(conn, "GET /%s HTTP/1.1\r\nHost: plain.test\r\nX-Verif-Id: %s\r\n\r\n", id, id)
+				conn.SetReadDeadline(time.Now().Add(T))
+				res, err := http.ReadResponse(br, &http.Request{Method: "GET"})
+				var body []byte
+				if err == nil {
+					body, err = io.ReadAll(res.Body)
+				}
+				if err != nil || res.StatusCode != 200 || string(body) != "BODY-"+id {
+					class := "wrong-response"
+					if netkit.IsTimeout(err) {
+						class = "timeout-response"
+					}
+					return kit.Failf("C05/"+m+"/earlier-plain-tunnel/"+class, "plain request %s in the earlier tunnel: %v %v %q", id, err, res, body)
+				}
+			}
 		}
 		conn.SetWriteDeadline(time.Now().Add(5 * time.Second))
 		fmt.Fprintf(conn, "CONNECT %s HTTP/1.1\r\nHost: %s\r\nX-Verif-Id: connect\r\n\r\n", authority, authority)
@@ -499,6 +539,13 @@ func runOnce(c Case, T time.Duration) (v kit.Verdict) {
 		}
 	}
 	wantSecure := !c.PlainInside
+	for _, id := range preIDs {
+		if got, ok := byID[id]; !ok {
+			v.Addf("C05/"+m+"/earlier-plain-tunnel/not-seen-by-modifier", "request %s never reached the request modifier", id)
+		} else if got.scheme != "http" || got.secure {
+			v.Addf("C05/"+m+"/earlier-plain-tunnel/plain-traffic-treated-as-secure", "request %s inside a tunnel without TLS: scheme %q secure=%v", id, got.scheme, got.secure)
+		}
+	}
 	for i, s := range sents {
 		got, ok := byID[s.id]
 		idx := "first-request"
@@ -553,7 +600,7 @@ func runOnce(c Case, T time.Duration) (v kit.Verdict) {
 	}
 	if wantSecure {
 		for _, r := range recs {
-			if !r.tls {
+			if !r.tls && !strings.HasPrefix(r.id, "p") {
 				v.Addf("C05/"+m+"/any/cleartext-origin-contacted", "the cleartext origin received request %q", r.id)
 				break
 			}
@@ -624,6 +671,9 @@ func genCase(t *rapid.T) Case {
 			break
 		}
 	}
+	if !transparent && rapid.IntRange(0, 3).Draw(t, "before") == 0 {
+		c.Before = rapid.SliceOfN(rapid.IntRange(0, 2), 1, 2).Draw(t, "before_stages")
+	}
 	if !transparent && rapid.IntRange(0, 4).Draw(t, "split_first") == 0 {
 		c.SplitFirstMs = rapid.SampledFrom([]int{5, 30}).Draw(t, "split_first_ms")
 	}
@@ -670,6 +720,15 @@ func classes(c Case) []string {
 	}
 	if c.SplitFirstMs > 0 {
 		out = append(out, "first-tunnel-byte-travels-alone")
+	}
+	if len(c.Before) > 0 {
+		out = append(out, "connection-carried-a-plain-tunnel-before")
+		if !c.PlainInside {
+			out = append(out, "tls-tunnel-after-plain-tunnel")
+		}
+	}
+	if c.OriginDelayMs > 0 {
+		out = append(out, "slow-origin")
 	}
 	if c.PlainInside && c.Listener == "tls-connect" {
 		out = append(out, "cleartext-tunnel-carried-by-a-tls-connection")
@@ -725,6 +784,10 @@ func TestBusySession(t *testing.T) {
 				return
 			}
 		}
+		// exchanges that take most of the timeout, pauses well below it: the pause
+		// counts from the end of an exchange, not from the arrival of its request
+		c := Case{Listener: "plain", SNI: true, TimeoutMs: 1000, GapMs: 400, OriginDelayMs: 800, Inner: []Inner{{Form: "origin"}, {Form: "origin"}}}
+		yield(c)
 	})
 }
 
